@@ -206,6 +206,7 @@ var expectedProbes = map[string][]string{
 	"C05": {"eof-before-warm-up", "action-streams-checked"},
 	"C09": {"calls-alive-at-once", "instance-reused-after-completed-call", "calls-compared-with-fresh-instance", "reports-compared-with-fresh-instance"},
 	"C11": {"file-compared-with-model", "shorter-write-over-longer-file", "permuted-header-documents-read", "json-roundtrips", "fragmented-reads", "append-to-missing-file-rejected"},
+	"C19": {"read-error-fired", "http-transport-error", "http-non-200-status", "unreadable-file:missing", "unreadable-file:directory", "malformed-document", "fragmented-reads", "records-compared-with-reference-decode"},
 	"C14": {"reports-rendered", "rows-compared-with-compute-outcome", "buffered-report-input"},
 	"C16": {"unequal-eof", "empty-input", "eof-within-parameter-window", "model-compared"},
 }
